@@ -5,10 +5,34 @@
 
 static int64_t n_rt, n_pert;
 
+/* A result must not depend on what the library was asked before.  Every 16th round trip is preceded by an unrelated call
+ * on the same cell that walks the same internal helpers from another entry point (local IJ, distance, boundary, vertexes,
+ * parent/child, faces); a memo or scratch state left behind by it would change the centre computed next. */
+static void unrelated_call_first(H3Index h) {
+    int64_t d;
+    CoordIJ ij;
+    CellBoundary cb;
+    H3Index o, vs[6];
+    int faces[5];
+    switch ((n_rt >> 4) % 7) {
+        case 0: gridDistance(h, h, &d); break;
+        case 1: cellToLocalIj(h, h, 0, &ij); break;
+        case 2: cellToBoundary(h, &cb); break;
+        case 3: cellToVertexes(h, vs); break;
+        case 4: cellToParent(h, VF_RES(h) ? VF_RES(h) - 1 : 0, &o); cellToCenterChild(h, VF_RES(h) < 15 ? VF_RES(h) + 1 : 15, &o); break;
+        case 5: getIcosahedronFaces(h, faces); break;
+        default: {
+            H3Index ring[7] = {0};
+            gridDisk(h, 1, ring);
+            if (ring[1]) gridDistance(ring[1], h, &d);
+        }
+    }
+}
 static void roundtrip(H3Index h) {
     LatLng g;
     H3Index back = 0;
     int res = VF_RES(h);
+    if ((n_rt & 15) == 0) unrelated_call_first(h);
     H3Error e = cellToLatLng(h, &g);
     n_rt++;
     if (e) {
